@@ -210,7 +210,28 @@ func VH_C15_RefuseMidMessage() {
 	sc := &vhConn{}
 	s, _ := vhExportable(sc)
 	vAssume(s.encryptCounter < 0xfffffff0)
-	switch vChoice("history", 3) {
+	switch vChoice("history", 5) {
+	case 3:
+		// a partial frame sent directly (SendPartialMessage is what the typed message
+		// layer uses for every frame but the last of a multi-frame message)
+		if s.SendPartialMessage(vhCtx, vBlob("p", 5)) != nil {
+			vAssume(false)
+		}
+		_, err := s.ExportCryptoState()
+		vAssert(err != nil, "export-refused-after-a-directly-sent-partial-frame")
+		if s.SendMessage(vhCtx, vBlob("q", 5)) != nil {
+			vAssume(false)
+		}
+		_, err2 := s.ExportCryptoState()
+		vAssert(err2 == nil, "export-allowed-once-the-message-is-completed")
+		vCover("mid-send-direct")
+	case 4:
+		if s.WriteFrame(vhCtx, vBlob("p", 5), false) != nil {
+			vAssume(false)
+		}
+		_, err := s.ExportCryptoState()
+		vAssert(err != nil, "export-refused-after-a-directly-sent-partial-frame")
+		vCover("mid-send-writeframe")
 	case 0:
 		// outbound message in progress: the first write was large enough to be flushed
 		s.StartMessage()
